@@ -106,6 +106,7 @@ func runHistory(profile string, seed int64, nops int, path string) map[string]in
 	h.line(genLine(c))
 	g := NewGen(c, profile, r)
 	mon := NewMonitors()
+	defer func() { h.line(fmt.Sprintf("MONCOUNT %d", mon.evals)) }()
 	t := cfg.StartTime
 	done := 0
 	for done < nops && !c.Halted {
